@@ -42,10 +42,10 @@ class Entry:
     src:   ('src', path relative to the source root) | ('build', path relative to the build root) | None
     mode:  explicit install_mode bits or None (=> default permissions masked by install_umask)
     """
-    __slots__ = ('where', 'kind', 'src', 'mode', 'target', 'tag', 'tag_spec', 'sub', 'rule', 'alias', 'oc_unspec')
+    __slots__ = ('where', 'kind', 'src', 'mode', 'target', 'tag', 'tag_spec', 'sub', 'rule', 'alias', 'oc_unspec', 'cands')
 
     def __init__(self, where, kind, rule, src=None, mode=None, target=None, tag=None, tag_spec=True, sub='', alias=False,
-                 oc_unspec=False):
+                 oc_unspec=False, cands=None):
         self.where = where
         self.kind = kind
         self.src = src
@@ -57,6 +57,9 @@ class Entry:
         self.rule = rule
         self.alias = alias            # library alias symlink: only the resolution is compared, not the literal target
         self.oc_unspec = oc_unspec    # behaviour under --only-changed not specified (symlink copied as a link)
+        # no install_tag given: the set of tags the documentation allows for this entry (None in the set = "untagged").
+        # One element: the tag is specified; several: the documented rules overlap / are silent, any of them is accepted.
+        self.cands = cands
 
 
 class Rule:
@@ -72,6 +75,8 @@ class Rule:
         #            (section, ('src'|'build', rel), where, tag)
         self.needs_c = False
         self.has_mode = True
+        self.guess: T.Optional[str] = None      # destination id within the implicit-tag family (see guess_rules)
+        self.gkind: T.Optional[str] = None
 
 
 def _modekw(mode: str) -> str:
@@ -364,6 +369,215 @@ RULE_IDS = list(BUILDERS)
 KIND_OF = {rid: rid.split('_')[0] for rid in RULE_IDS}
 
 
+# ------------------------------------------------------------------------------------------------------------
+# Implicit install tags.  Installing.md, "Installation tags": "Meson sets predefined tags on some files", for an item
+# WITHOUT install_tag by where it goes:
+#   runtime   "Files installed into `bindir`", "Files installed into `libdir` and with `.so` or `.dll` extension"
+#   devel     "Files installed into `libdir` and with `.a` or `.pc` extension", "File installed into `includedir`"
+#   i18n      "Files installed into `localedir`"
+#   tests     "Files installed into `installed-tests` subdir"        systemtap  "Files installed into `systemtap` subdir"
+# and "Installable files that have not been tagged either automatically by Meson, or manually using `install_tag` keyword
+# argument won't be installed when `--tags` is used".  "Installed into D" is read as path containment: D itself or a
+# directory below it.  A directory whose NAME merely begins like D (bin-extra, libexec, share/locale-archive), D's parent,
+# or a directory called like D somewhere else is not D.
+DOC_TAGS = ('devel', 'runtime', 'python-runtime', 'man', 'doc', 'i18n', 'typelib', 'bin', 'bin-devel', 'tests', 'systemtap')
+DIR_DEFAULTS = {'bindir': 'bin', 'sbindir': 'sbin', 'libdir': 'lib', 'includedir': 'include', 'localedir': 'share/locale',
+                'libexecdir': 'libexec', 'datadir': 'share'}
+# directory layouts: the documented defaults, and one in which every directory the tag rules mention lives elsewhere (a
+# Debian-like multiarch libdir, tools under their own directory) - there `bin`, `lib`, `include`, `share/locale` are
+# ordinary directories
+DIRSETS = (dict(DIR_DEFAULTS),
+           dict(DIR_DEFAULTS, bindir='tools/bin', libdir='lib/x86_64-linux-gnu', includedir='inc', localedir='share/lc'))
+TAGGED_DIR_OPTS = ('bindir', 'sbindir', 'libdir', 'includedir', 'localedir')
+GUESS_KINDS = ('data', 'subdir', 'emptydir', 'symlink', 'conf', 'ct')
+# below each base directory: the directory itself, a sub-directory, the two "subdir" names of the tag list (also one
+# level further down) and a look-alike of each
+GUESS_MIDS = ('', 'sub d', 'installed-tests', 'installed-tests/in ner', 'installed-tests-old', 'systemtap', 'xsystemtap')
+MID_CLASS = {'': 'top', 'sub d': 'sub', 'installed-tests': 'installed-tests', 'installed-tests/in ner': 'installed-tests',
+             'installed-tests-old': 'near-installed-tests', 'systemtap': 'systemtap', 'xsystemtap': 'near-systemtap'}
+EXT_CLASS = {'.a': 'static', '.pc': 'static', '.so': 'shared', '.dll': 'shared'}
+
+
+def guess_bases(ds: T.Dict[str, str], absbase: str, prefix: str) -> T.List[T.Tuple[str, str, str]]:
+    """Base directories of the "destination x no explicit tag" dimension: (symbol, 'rel' | 'abs', directory)."""
+    out: T.List[T.Tuple[str, str, str]] = []
+    seen = set()
+
+    def add(sym, kind, d):
+        if (kind, d) not in seen:
+            seen.add((kind, d))
+            out.append((sym, kind, d))
+    for opt in TAGGED_DIR_OPTS + ('libexecdir', 'datadir'):
+        add(opt, 'rel', ds[opt])                          # every standard directory
+    for opt in TAGGED_DIR_OPTS:
+        d = ds[opt]
+        add(opt + '-extra', 'rel', d + '-extra')          # siblings whose name goes on after a non-word character,
+        add(opt + 'x', 'rel', d + 'x')                    # ... goes on after a letter,
+        add(opt + '[:-1]', 'rel', d[:-1])                 # ... or stops one letter short
+        add('other/' + opt, 'rel', 'other/' + d)          # the same name somewhere else below the prefix
+        if '/' in d:
+            add('parent:' + opt, 'rel', os.path.dirname(d))
+        add('default:' + opt, 'rel', DIR_DEFAULTS[opt])   # the default name while the option points elsewhere
+        add('abs-in:' + opt, 'abs', prefix.rstrip('/') + '/' + d)       # the directory itself, spelled absolutely
+        add('abs-out:' + opt, 'abs', absbase + '/etc/' + d)             # the same name outside the prefix
+    return out
+
+
+def _within(parts: T.Sequence[str], d: str) -> bool:
+    dp = d.split('/')
+    return len(parts) >= len(dp) and list(parts[:len(dp)]) == dp
+
+
+def documented_tags(relparts: T.Optional[T.Sequence[str]], allparts: T.Sequence[str], name: str, ds: T.Dict[str, str],
+                    item: str = 'file') -> T.FrozenSet[T.Optional[str]]:
+    """Tags that Installing.md allows for an item called `name`, without install_tag, installed into a directory.
+    relparts: components of that directory relative to the prefix (None: not below the prefix); allparts: all of them."""
+    ext = os.path.splitext(name)[1]
+    c: T.Set[T.Optional[str]] = set()
+    if relparts is not None:
+        if _within(relparts, ds['bindir']):
+            c.add('runtime')
+        if _within(relparts, ds['libdir']):
+            if ext in ('.a', '.pc'):
+                c.add('devel')
+            elif ext in ('.so', '.dll'):
+                c.add('runtime')
+        if _within(relparts, ds['includedir']):
+            c.add('devel')
+        if _within(relparts, ds['localedir']):
+            c.add('i18n')
+        if _within(relparts, ds['sbindir']):
+            c.update(('runtime', None))       # the list names bindir only: tagged like bindir, or not at all
+    if 'installed-tests' in allparts:
+        c.add('tests')
+    if 'systemtap' in allparts:
+        c.add('systemtap')
+    if not c:
+        c.add(None)
+    elif item == 'dir':
+        # install_emptydir: "By default this directory has no install tag", while the list speaks of "files installed into"
+        c.add(None)
+    return frozenset(c)
+
+
+def guess_rules(kind: str, s: str, m: str, ab: str, prefix: str, ds: T.Dict[str, str], only: T.Optional[T.Sequence[str]]) -> T.List[Rule]:
+    """One install rule WITHOUT install_tag per destination directory (bases x GUESS_MIDS) and file extension."""
+    rules: T.List[Rule] = []
+    pparts = [x for x in prefix.split('/') if x]
+    ctn = Rule('guess:ctn', s, m)          # one custom_target whose install_dir lists a directory per output
+    ctn_out: T.List[str] = []
+    ctn_dirs: T.List[str] = []
+    n = 0
+    for sym, wk, base in guess_bases(ds, ab, prefix):
+        libish = 'lib' in sym
+        for mid in GUESS_MIDS:
+            n += 1
+            did = sym + ('/' + mid if mid else '')
+            if only is not None and did not in only:
+                continue
+            d = base + ('/' + mid if mid else '')
+            if wk == 'rel':
+                relparts: T.Optional[T.List[str]] = d.split('/')
+                allparts = pparts + d.split('/')
+            else:
+                allparts = [x for x in d.split('/') if x]
+                relparts = allparts[len(pparts):] if allparts[:len(pparts)] == pparts else None
+            bcls = sym[len('abs-in:'):] if sym.startswith('abs-in:') else sym
+
+            def mk(ext, item='file', sub=()):
+                rp = None if relparts is None else list(relparts) + list(sub)
+                r = Rule('guess:%s:%s:%s' % (bcls, MID_CLASS[mid], EXT_CLASS.get(ext, 'other') if ext else 'none'), s, m)
+                r.has_mode = False
+                r.guess = did
+                r.gkind = kind
+                return r, documented_tags(rp, list(allparts) + list(sub), 'x' + ext, ds, item)
+            if kind == 'data':
+                for ext in (('.txt', '.a', '.pc', '.so', '.dll') if libish else ('.txt', '.a', '.so')):
+                    r, cands = mk(ext)
+                    f = nm(s, 'gd%d' % n, ext)
+                    r.snippet = 'install_data(%s, install_dir: %s)' % (q(f), q(d))
+                    r.files[f] = ('data %d\n' % n, 0o644)
+                    w = (wk, d + '/' + f)
+                    r.entries.append(Entry(w, 'file', r, src=('src', f), cands=cands))
+                    r.plan.append(('data', ('src', f), w, cands))
+                    rules.append(r)
+            elif kind == 'conf':
+                for ext in (('.txt', '.a', '.pc', '.so', '.dll') if libish else ('.txt', '.so')):
+                    r, cands = mk(ext)
+                    f = nm(s, 'gc%d' % n, ext)
+                    r.snippet = "configure_file(output: %s, configuration: {'N': '%d'}, install: true, install_dir: %s)" % (q(f), n, q(d))
+                    w = (wk, d + '/' + f)
+                    r.entries.append(Entry(w, 'file', r, src=('build', f), cands=cands))
+                    r.plan.append(('configure', ('build', f), w, cands))
+                    rules.append(r)
+            elif kind == 'symlink':
+                for ext in (('.txt', '.a', '.pc', '.so', '.dll') if libish else ('.txt', '.so')):
+                    r, cands = mk(ext)
+                    f = nm(s, 'gl%d' % n, ext)
+                    r.snippet = 'install_symlink(%s, pointing_to: %s, install_dir: %s)' % (q(f), q('../tgt%d' % n), q(d))
+                    r.entries.append(Entry((wk, d + '/' + f), 'link', r, target='../tgt%d' % n, cands=cands))
+                    rules.append(r)
+            elif kind == 'emptydir':
+                r, cands = mk('', item='dir')
+                f = nm(s, 'ge%d' % n)
+                r.snippet = 'install_emptydir(%s)' % q(d + '/' + f)
+                r.entries.append(Entry((wk, d + '/' + f), 'dir', r, cands=cands))
+                rules.append(r)
+            elif kind == 'subdir':
+                # the tree holds files whose extension no tag rule mentions
+                top = nm(s, 'gt%d' % n)
+                r, cands = mk('.txt', sub=(top,))
+                a, b = nm(s, 'ta', '.txt'), nm(s, 'tb', '.txt')
+                r.files[top + '/' + a] = ('tree %d a\n' % n, 0o644)
+                r.files[top + '/in/' + b] = ('tree %d b\n' % n, 0o644)
+                r.snippet = 'install_subdir(%s, install_dir: %s)' % (q(top), q(d))
+                bd = d + '/' + top
+                for sub in ('', '/in'):
+                    r.entries.append(Entry((wk, bd + sub), 'dir', r, cands=cands))
+                for rel in (a, 'in/' + b):
+                    r.entries.append(Entry((wk, bd + '/' + rel), 'file', r, src=('src', top + '/' + rel), cands=cands))
+                r.plan.append(('install_subdirs', ('src', top), (wk, bd), cands))
+                rules.append(r)
+            elif kind == 'ct':
+                # (1) one custom_target per directory, several outputs, a single install_dir for all of them
+                r0 = Rule('guess:ct1', s, m)
+                r0.has_mode = False
+                r0.needs_c = True
+                outs = []
+                for ext in ('.txt', '.a', '.so'):
+                    r, cands = mk(ext)
+                    f = nm(s, 'go%d' % n, ext)
+                    outs.append(f)
+                    w = (wk, d + '/' + f)
+                    r.needs_c = True
+                    r.entries.append(Entry(w, 'file', r, src=('build', f), cands=cands))
+                    r.plan.append(('targets', ('build', f), w, cands))
+                    rules.append(r)
+                r0.snippet = "custom_target(%s, output: [%s], command: ['sh', files('g_gen.sh'), '@OUTPUT@'], install: true, install_dir: %s)" % (
+                    q('gct%d' % n), ', '.join(q(o) for o in outs), q(d))
+                rules.append(r0)
+                # (2) outputs of the one target with a list of directories
+                for ext in ('.dat', '.dll'):
+                    r, cands = mk(ext)
+                    f = nm(s, 'gn%d' % n, ext)
+                    ctn_out.append(f)
+                    ctn_dirs.append(d)
+                    w = (wk, d + '/' + f)
+                    r.entries.append(Entry(w, 'file', r, src=('build', f), cands=cands))
+                    r.plan.append(('targets', ('build', f), w, cands))
+                    rules.append(r)
+            else:
+                raise ValueError(kind)
+    if kind == 'ct':
+        ctn.has_mode = False
+        ctn.needs_c = True
+        ctn.files['g_gen.sh'] = ('for f in "$@"; do echo "made $f" > "$f"; done\n', 0o644)
+        ctn.snippet = "custom_target('gctn', output: [%s], command: ['sh', files('g_gen.sh'), '@OUTPUT@'], install: true, install_dir: [%s])" % (
+            ', '.join(q(o) for o in ctn_out), ', '.join(q(x) for x in ctn_dirs))
+        rules.append(ctn)
+    return rules
+
+
 class Project:
     def __init__(self, rules: T.List[Rule], with_sub: bool, sub_style: str):
         self.rules = rules
@@ -375,7 +589,8 @@ class Project:
         self.plan = []
         lines = ["project('proj'%s)" % (", 'c'" if any(r.rid in ('exe', 'shlib', 'stlib') for r in rules) else '')]
         for r in rules:
-            lines.append(r.snippet)
+            if r.snippet:
+                lines.append(r.snippet)
             for k, v in r.files.items():
                 assert k not in self.files, k
                 self.files[k] = v
@@ -399,9 +614,19 @@ class Project:
         self.files['meson.build'] = ('\n'.join(lines) + '\n', 0o644)
 
 
-def make_project(rules: T.Sequence[T.Tuple[str, str, str]], absbase: str, with_sub: bool = False, sub_style: str = 'plain') -> Project:
-    """rules: [(rule id, name style, mode id)]; absbase: '' or the pseudo-root that absolute install dirs live in."""
-    return Project([BUILDERS[rid](s, m, absbase) for rid, s, m in rules], with_sub, sub_style)
+def make_project(rules: T.Sequence[T.Tuple[str, str, str]], absbase: str, with_sub: bool = False, sub_style: str = 'plain',
+                 guess: T.Optional[T.Dict[str, T.Any]] = None, prefix: str = '/usr') -> Project:
+    """rules: [(rule id, name style, mode id)]; absbase: '' or the pseudo-root that absolute install dirs live in.
+    A rule id 'guess:<kind>' stands for the whole "destination directory x no explicit tag" family of that kind of rule
+    (guess = {'dirset': index into DIRSETS, 'only': None | [destination ids]})."""
+    out: T.List[Rule] = []
+    for rid, s, m in rules:
+        if rid.startswith('guess:'):
+            assert guess is not None
+            out += guess_rules(rid.split(':', 1)[1], s, m, absbase, prefix, DIRSETS[guess['dirset']], guess.get('only'))
+        else:
+            out.append(BUILDERS[rid](s, m, absbase))
+    return Project(out, with_sub, sub_style)
 
 
 def select(entries: T.Sequence[Entry], tags: T.Optional[T.Sequence[str]], skip: T.Optional[str]) -> T.Tuple[T.List[Entry], int]:
@@ -412,7 +637,15 @@ def select(entries: T.Sequence[Entry], tags: T.Optional[T.Sequence[str]], skip: 
     for e in entries:
         if e.sub and skip is not None and (skip == '*' or e.sub in [x.strip() for x in skip.split(',')]):
             continue
-        if tags:
+        if tags and e.cands is not None:
+            hit = [c for c in e.cands if c in tags]
+            if not hit:
+                continue
+            if len(hit) < len(e.cands):      # the documented rules allow a tag that is selected and one that is not
+                unspec += 1
+                out.append((e, False))
+                continue
+        elif tags:
             if not e.tag_spec:
                 unspec += 1
                 out.append((e, False))
